@@ -142,9 +142,13 @@ def _get_resp_headers(sock, success_statuses: tuple = SUCCESS_STATUSES) -> tuple
     status, resp_headers, status_message = read_headers(sock)
     if status not in success_statuses:
         content_len = resp_headers.get("content-length")
-        if content_len:
+        try:
+            body_len = int(content_len) if content_len else 0
+        except ValueError:
+            body_len = 0
+        if body_len > 0:
             response_body = sock.recv(
-                int(content_len)
+                min(body_len, 16384)
             )  # read the body of the HTTP error message response and include it in the exception
         else:
             response_body = None
